@@ -71,7 +71,7 @@ class Stepper:
         except Exception as e:
             self.ctor_exc = type(e).__name__
             return
-        self.rec = R.SessionRec(algo, self.P, tid=cfg["id"], call_timeout=cfg.get("timeout", 30))
+        self.rec = R.SessionRec(algo, self.P, tid=cfg["id"], call_timeout=cfg.get("timeout", 30), tree=not cfg.get("notree"))
 
     def done(self):
         return self.rec is None or self.rec.failed or (self.i >= self.T and self.asked is None)
@@ -80,6 +80,10 @@ class Stepper:
         """next operation of the documented loop"""
         rec = self.rec
         if self.asked is None:
+            if self.i == 0 and self.cfg.get("preq") and not getattr(self, "_preq_done", False):
+                self._preq_done = True       # a recommendation asked for before the first round
+                rec.glp()
+                return
             self.asked = (rec.pull(self.t0 + self.i),)
             return
         pt = self.asked[0]
